@@ -21,10 +21,30 @@ def units(tier):
                       "std::string stub (size, operator[], iterators), std::isdigit on ASCII; integer backend: mpz_init_set_str is memory-safe on any NUL-terminated string"],
              assumptions=["only the two guards the property anchors are covered: cereal's reader, size fields, sharing references (load_rcp_basic: try/catch, cannot be compiled), "
                           "direct make_rcp of non-canonical objects and all post-load operations are NOT under contract — most of C20"])
-    return [u]
+    return [u, load_exact_unit(tier)]
+
+def load_exact_unit(tier):
+    import importlib.util, os
+    spec = importlib.util.spec_from_file_location('units_C05_for_C20', os.path.join(os.path.dirname(__file__), '..', 'C05', 'units.py'))
+    c05 = importlib.util.module_from_spec(spec); spec.loader.exec_module(c05)
+    pieces = c05.pieces()
+    def loader(cls, call_rule):
+        sig = r'template <class Archive>\s*RCP<const Basic> load_basic\(Archive &ar, RCP<const %s> &\)' % cls
+        return Piece(SC, sig, rules=[R(sig, 'RCPNumber load_basic_%s(Archive &ar, int &)' % cls, n=1, regex=True,
+                                       why="template header stripped (stub Archive); the tag parameter RCP<const %s>& only selects the overload -> distinct name" % cls)] + call_rule + c05.TOK)
+    pieces['loaders.inc'] = [loader('Rational', [R('RCP<const Integer> num, den;', 'Integer *num, *den;', n=1, why="RCP<const Integer> -> raw pointer (dereferenced as Integer)")]),
+                             loader('Complex', [R('RCP<const Number> num, den;', 'Number *num, *den;', n=1, why="RCP<const Number> -> raw pointer")])]
+    ents = [Entry(h, defines={'EXACT_ABSTRACT': 1, 'C20_LOADERS': 1}, route='F', timeout=300, unwindset=['mp_pow_ui.0:6', 'ipow.0:6'], unwind=4,
+                  bounds="any two exact numbers delivered by the archive (full 64-bit integers; GMP results arbitrary canonical values)") for h in ('h_load_rational', 'h_load_complex')]
+    return Unit('load_exact_numbers', 'C20', 'contracts/C05/exact.cpp', pieces, ents, route='F',
+                trusted=["Archive stub: ar(num, den) delivers two arbitrary exact numbers (cereal's reader and the recursive RCP loading are not under contract)",
+                         "GMP contracts of prelude/exactnum.h; the glue the loaders call (Rational::from_two_ints, Complex::from_two_nums, from_mpq) is the real text also verified under C05"],
+                assumptions=["only the Rational and Complex loaders; every other load_basic overload (direct make_rcp of possibly non-canonical objects) is not under contract"])
 
 def replay_args(obl, inputs, res):
     import re
+    if 'load_basic' in obl or obl.startswith('C05.'):
+        return [obl]
     if 'typeid' in obl:
         v = inputs.get('ar.next_byte', {}).get('data')
         return [obl, "byte=%s" % v] if v is not None else None
